@@ -1375,7 +1375,7 @@ func streamHook(rep *Report, tier string, seed uint64) {
 			}
 			for name, e := range errs {
 				for _, d := range []string{"%v", "%s", "%+v", "%#v", "%d", "%q", "%x", "%8v"} {
-					for _, pos := range []string{"top", "w", "slice", "mapval", "field", "ufield", "unsafe", "safe", "panicval", "panicval-in-slice"} {
+					for _, pos := range []string{"top", "w", "slice", "mapval", "field", "ufield", "unsafe", "safe", "panicval", "panicval-in-slice", "sibling"} {
 						for _, hk := range []int{0, 1, 2} {
 							switch hk {
 							case 0:
@@ -1388,7 +1388,14 @@ func streamHook(rep *Report, tier string, seed uint64) {
 							seen = nil
 							var arg interface{} = e
 							f := "A:" + d + ":B"
+							var before []interface{}
 							switch pos {
+							case "sibling":
+								// the error is the last operand of a call whose earlier operands went through the other
+								// exits of the printer: a bad verb on nil, a bad verb on an int, a missing operand index,
+								// a panicking Stringer, a Safe() wrapper, a SafeFormatter
+								f = "A:%z %[9]v %v %s %v %d " + d + ":B"
+								before = []interface{}{5, panicWith{"pw"}, redact.Safe("sv"), sfErr{"sib"}, nil}
 							case "slice":
 								arg = []interface{}{e}
 							case "mapval":
@@ -1433,7 +1440,7 @@ func streamHook(rep *Report, tier string, seed uint64) {
 								})
 								d = "%v"
 							} else {
-								out, pm = rSprintf(f, []interface{}{arg})
+								out, pm = rSprintf(f, append(before, arg))
 							}
 							var orc []string
 							isSF := name == "safefmt"
